@@ -1128,3 +1128,119 @@ func sortedKeys(m map[string]*Term) []string {
 	sort.Strings(ks)
 	return ks
 }
+
+// ---------- evaluation under a (partial) model ----------
+
+// Subst rebuilds t with variables replaced by model values, through the folding constructors.
+// defaultFor supplies a value for variables missing from the model (and may record it).
+func (tt *Terms) Subst(t *Term, model map[*Term]*Term, memo map[*Term]*Term, defaultFor func(v *Term) *Term) *Term {
+	if t.IsConst() {
+		return t
+	}
+	if r, ok := memo[t]; ok {
+		return r
+	}
+	var r *Term
+	if t.IsVar() {
+		if v, ok := model[t]; ok {
+			r = v
+		} else if defaultFor != nil {
+			r = defaultFor(t)
+		} else {
+			r = t
+		}
+		memo[t] = r
+		return r
+	}
+	args := make([]*Term, len(t.Args))
+	allConst := true
+	for i, a := range t.Args {
+		args[i] = tt.Subst(a, model, memo, defaultFor)
+		if !args[i].IsConst() {
+			allConst = false
+		}
+	}
+	r = tt.rebuild(t, args)
+	_ = allConst
+	memo[t] = r
+	return r
+}
+
+func (tt *Terms) rebuild(t *Term, a []*Term) *Term {
+	switch t.Op {
+	case "not":
+		return tt.Not(a[0])
+	case "and":
+		return tt.And(a[0], a[1])
+	case "or":
+		return tt.Or(a[0], a[1])
+	case "ite":
+		return tt.Ite(a[0], a[1], a[2])
+	case "=":
+		return tt.Eq(a[0], a[1])
+	case "bvadd", "bvsub", "bvmul", "bvudiv", "bvurem", "bvsdiv", "bvsrem", "bvand", "bvor", "bvxor", "bvshl", "bvlshr", "bvashr":
+		return tt.BVBin(t.Op, a[0], a[1])
+	case "bvnot":
+		return tt.BVNot(a[0])
+	case "bvneg":
+		return tt.BVNeg(a[0])
+	case "bvult", "bvule", "bvslt", "bvsle":
+		return tt.BVCmp(t.Op, a[0], a[1])
+	case "+":
+		return tt.IAdd(a[0], a[1])
+	case "-":
+		return tt.ISub(a[0], a[1])
+	case "<":
+		return tt.ILt(a[0], a[1])
+	case "<=":
+		return tt.ILe(a[0], a[1])
+	case "bv2nat":
+		return tt.BV2I(a[0])
+	case "str.++":
+		return tt.concatN(a)
+	case "str.len":
+		return tt.StrLen(a[0])
+	case "str.substr":
+		return tt.SubStr(a[0], a[1], a[2])
+	case "str.at":
+		return tt.At(a[0], a[1])
+	case "str.to_code":
+		return tt.ToCode(a[0])
+	case "str.from_code":
+		return tt.FromCode(a[0])
+	case "str.prefixof":
+		return tt.PrefixOf(a[0], a[1])
+	case "str.suffixof":
+		return tt.SuffixOf(a[0], a[1])
+	case "str.contains":
+		return tt.Contains(a[0], a[1])
+	case "str.indexof":
+		return tt.IndexOf(a[0], a[1], a[2])
+	case "str.<":
+		return tt.StrLt(a[0], a[1])
+	case "str.<=":
+		return tt.StrLe(a[0], a[1])
+	case "str.to_int":
+		return tt.StrToInt(a[0])
+	case "str.from_int":
+		return tt.StrFromInt(a[0])
+	case "select":
+		return tt.Select(a[0], a[1])
+	}
+	if strings.HasPrefix(t.Op, "(_ int2bv ") {
+		return tt.I2BV(t.Sort.W, a[0])
+	}
+	if strings.HasPrefix(t.Op, "(_ extract ") {
+		var hi, lo int
+		fmt.Sscanf(t.Op, "(_ extract %d %d)", &hi, &lo)
+		return tt.Extract(hi, lo, a[0])
+	}
+	if strings.HasPrefix(t.Op, "(_ zero_extend ") {
+		return tt.ZExt(t.Sort.W, a[0])
+	}
+	if strings.HasPrefix(t.Op, "(_ sign_extend ") {
+		return tt.SExt(t.Sort.W, a[0])
+	}
+	// unknown operator: keep symbolic (caller falls back to the solver)
+	return tt.mk(t.Op, t.Sort, a...)
+}
